@@ -20,7 +20,7 @@ LEVEL = "other"
 def run(ctx):
     b = build.build("tsan")
     prog = build.compile_prog("tsan", "race_drv", ["race_drv.c", "seams_pass.c"])
-    cfgs = ["MC_Race_q1.cfg", "MC_Race_q2.cfg"] if ctx.quick() else ["MC_Race_q1.cfg", "MC_Race_q2.cfg", "MC_Race_t1.cfg", "MC_Race_t2.cfg", "MC_Race_t3.cfg"]
+    cfgs = ["MC_Race_q1.cfg", "MC_Race_q2.cfg"] if ctx.quick() else ["MC_Race_q1.cfg", "MC_Race_q2.cfg", "MC_Race_t1.cfg", "MC_Race_t2.cfg", "MC_Race_t3.cfg", "MC_Race_tm.cfg"]
     for c in cfgs:
         r = core.tlc("Race", c, workers=8 if ctx.quick() else 12, timeout=3000)
         if not r.ok:
@@ -30,10 +30,15 @@ def run(ctx):
     wd = ctx.sub("tsan")
     jobs = []
     reps = 4 if ctx.quick() else 16
-    comps = ["zlib", "none", "zstd"] if ctx.quick() else gen.COMPS
+    # every compression type where the scenario compresses or decompresses blocks on several threads (each codec has its own
+    # state handling); the sorter's temporary files have a fixed compression, so those scenarios take fewer types
     for sc in ("writers", "sorters", "mixed", "readers", "single", "abandon"):
+        if ctx.quick():
+            comps = gen.COMPS if sc in ("writers", "readers") else ["zlib", "lz4hc", "zstd"] if sc in ("mixed", "single") else ["none"]
+        else:
+            comps = gen.COMPS
         for comp in comps:
-            for k in range(reps):
+            for k in range(reps if (ctx.quick() or sc in ("writers", "readers", "mixed", "single")) else reps):
                 jobs.append((sc, comp, ctx.seed % 10000 + k * 13 + len(jobs)))
 
     def one(job):
